@@ -12,11 +12,11 @@ EXPLANATION = ("Real Motl.get_motl_subset / remove_feature / split_by_feature / 
 ASSUMPTIONS = ["N <= 3 rows per list (two lists of 2 for binary operations)", "tomo_id in {1,2,3}, object_id in {1,2,5}, subtomo_id in {1,2,3}, class in {1,2}, score in {0.25,0.5,0.75}",
                "index labels: default 0..N-1 or labels with gaps (pre-states reachable after remove_feature / split_by_feature)",
                "payload fields (x, shift_x, geom4, phi) arbitrary reals"]
-OUTSIDE = ["operation histories longer than 2 are covered only by the inductive argument (each operation is checked from an arbitrary valid pre-state)",
+OUTSIDE = ["operation histories longer than 3 (quick) / 4-5 (thorough: every sequence over the nine operations of length 4, five operations of length 5) are covered only by the inductive argument (each operation is checked from an arbitrary valid pre-state)",
            "real-valued (continuous) scores: scores come from a 3-element domain so that pandas' hash-based sort can run; ties are therefore included"]
 BOUNDS = {"quick": {"rows": 3, "id_domains": "see assumptions"}, "thorough": {"rows": 3, "pairs_of_operations": True}}
 EXPECTED_EXCEPTIONS = ()
-OPTS = {"max_paths": 3000}
+OPTS = {"max_paths": 6000}
 OPTS_THOROUGH = {'max_paths': 40000, 'budget_s': 1500}
 IDX = {"default": None, "gaps": [7, 2, 5, 11, 3, 8]}
 
@@ -280,6 +280,122 @@ def h_sequence(env, ops="remove>renumber_objects"):
         env.check("one_row_per_id", env.true() if sorted(float(v) for v in m.df["tomo_id"]) == sorted(set(r["tomo_id"] for r in cur)) else _false(env))
 
 
+HIST_OPS = ["subset_tomo1", "subset_tomo2_keepindex", "remove_class1", "split_class_first", "intersect_B", "drop_dup", "merge_B", "renumber_particles", "renumber_objects"]
+
+
+def _snapshot(df):
+    """the table as a list of row dicts (identifier cells are concrete, payload cells symbolic terms)"""
+    return [row(df, i) for i in range(df.shape[0])]
+
+
+def h_history(env, length=3, ops=None):
+    """Histories of `length` operations chosen by solver forks (every sequence over HIST_OPS is a path family).  After each
+    step the real table is compared with the step's row-set specification applied to the table the step STARTED from (read
+    back from the real object, so index labels / dtypes / duplicates left by earlier steps are whatever the code left)."""
+    cm = env.module("cryomotl")
+    ID = ("tomo_id", "object_id", "subtomo_id", "class", "score", "geom1")
+    rows = _rows(env, 4, "a", {})
+    for r, (t, o, sid, c, sc) in zip(rows, [(1, 5, 3, 1, 0.5), (2, 1, 1, 2, 0.75), (1, 5, 3, 2, 0.25), (1, 2, 7, 2, 0.5)]):
+        r.update(tomo_id=float(t), object_id=float(o), subtomo_id=float(sid), score=sc)
+        r["class"] = float(c)
+    rb = _rows(env, 2, "b", {}, base_rid=200)
+    for r, (t, o, sid, c, sc) in zip(rb, [(1, 1, 3, 1, 0.5), (3, 2, 9, 1, 1.0)]):
+        r.update(tomo_id=float(t), object_id=float(o), subtomo_id=float(sid), score=sc)
+        r["class"] = float(c)
+    m = _motl(env, cm, rows)
+    allorig = {r["geom1"]: r for r in rows + rb}
+    names = list(ops) if ops else HIST_OPS
+    for step in range(length):
+        op = names[_pick(env, "op%d" % step, len(names))]
+        pre = _snapshot(m.df)
+        tag = "step%d_%s" % (step, op)
+        payload_free = {"subtomo_id", "object_id"} if op in ("merge_B", "renumber_particles", "renumber_objects") else set()
+        if op == "subset_tomo1":
+            m = m.get_motl_subset(1.0, feature_id="tomo_id")
+            exp = [r for r in pre if float(r["tomo_id"]) == 1.0]
+        elif op == "subset_tomo2_keepindex":
+            m = m.get_motl_subset([2.0, 1.0], feature_id="tomo_id", reset_index=False)
+            exp = [r for r in pre if float(r["tomo_id"]) == 2.0] + [r for r in pre if float(r["tomo_id"]) == 1.0]
+        elif op == "remove_class1":
+            m.remove_feature("class", 1.0)
+            exp = [r for r in pre if float(r["class"]) != 1.0]
+        elif op == "split_class_first":
+            if not pre:
+                continue
+            parts = m.split_by_feature("class")
+            vals = sorted(set(float(r["class"]) for r in pre))
+            # a partition: one part per occurring value (the order of the parts is not fixed by the property), each holding
+            # exactly the rows with that value
+            pv = [sorted(set(float(v) for v in p_.df["class"])) for p_ in parts]
+            okp = all(len(v) == 1 for v in pv) and sorted(v[0] for v in pv if v) == vals
+            env.check(tag + "_one_part_per_value", env.true() if okp else _false(env))
+            if not okp:
+                return
+            env.check(tag + "_partition_sizes", env.true() if all(p_.df.shape[0] == sum(1 for r in pre if float(r["class"]) == v[0]) for p_, v in zip(parts, pv)) else _false(env))
+            m = parts[0]
+            exp = [r for r in pre if float(r["class"]) == pv[0][0]]
+        elif op == "intersect_B":
+            m = cm.Motl.get_motl_intersection(m, _motl(env, cm, rb))
+            idsb = [float(r["subtomo_id"]) for r in rb]
+            exp = [r for r in pre if float(r["subtomo_id"]) in idsb]
+        elif op == "drop_dup":
+            m.drop_duplicates()
+            post = _snapshot(m.df)
+            ids = sorted(set(float(r["subtomo_id"]) for r in pre))
+            env.check(tag + "_one_row_per_id", env.true() if sorted(float(r["subtomo_id"]) for r in post) == ids else _false(env))
+            for r in post:
+                best = max(float(q["score"]) for q in pre if float(q["subtomo_id"]) == float(r["subtomo_id"])) if pre else None
+                env.check(tag + "_kept_is_best_scoring_%d" % int(float(r["geom1"])), env.true() if float(r["score"]) == best else _false(env))
+            def _same(q, r):     # a row is identified by its tag AND its object number (B may have been merged in more than once; rows sharing a subtomogram number differ in at least one of the two)
+                return float(q["geom1"]) == float(r["geom1"]) and float(q["object_id"]) == float(r["object_id"]) and float(q["score"]) == float(r["score"])
+            exp = [[q for q in pre if _same(q, r)][0] for r in post if any(_same(q, r) for q in pre)]
+            env.check(tag + "_kept_rows_come_from_the_list", env.true() if len(exp) == len(post) else _false(env))
+        elif op == "merge_B":
+            m = cm.Motl.merge_and_renumber([m, _motl(env, cm, rb)])
+            post = _snapshot(m.df)
+            exp = pre + [dict(r) for r in rb]
+            if len(post) == len(exp):
+                env.check(tag + "_subtomo_1_to_N", env.true() if [float(r["subtomo_id"]) for r in post] == [float(k + 1) for k in range(len(post))] else _false(env))
+                oa, ob = [float(r["object_id"]) for r in post[:len(pre)]], [float(r["object_id"]) for r in post[len(pre):]]
+                env.check(tag + "_objects_do_not_collide", env.true() if not (set(oa) & set(ob)) else _false(env))
+                for grp_post, grp_pre in ((oa, pre), (ob, rb)):
+                    okg = all((grp_post[a] == grp_post[b]) == (float(grp_pre[a]["object_id"]) == float(grp_pre[b]["object_id"])) for a in range(len(grp_pre)) for b in range(len(grp_pre)))
+                    env.check(tag + "_grouping_kept", env.true() if okg else _false(env))
+        elif op == "renumber_particles":
+            m.renumber_particles()
+            exp = pre
+            post = _snapshot(m.df)
+            env.check(tag + "_ids_1_to_N", env.true() if [float(r["subtomo_id"]) for r in post] == [float(k + 1) for k in range(len(post))] else _false(env))
+            payload_free = {"subtomo_id"}
+        else:
+            if not pre:
+                continue
+            m.renumber_objects_sequentially()
+            exp = pre
+            post = _snapshot(m.df)
+            if len(post) == len(pre):
+                got = [float(r["object_id"]) for r in post]
+                okg = all((got[a] == got[b]) == ((float(pre[a]["tomo_id"]), float(pre[a]["object_id"])) == (float(pre[b]["tomo_id"]), float(pre[b]["object_id"]))) for a in range(len(pre)) for b in range(len(pre)))
+                env.check(tag + "_grouping_kept", env.true() if okg else _false(env))
+                vals = sorted(set(got))
+                env.check(tag + "_consecutive_from_1", env.true() if vals == [float(k + 1) for k in range(len(vals))] else _false(env))
+            payload_free = {"object_id"}
+        post = _snapshot(m.df)
+        df = m.df
+        env.check(tag + "_has_20_fields", env.true() if (df.shape[1] == 20 and sorted(df.columns) == sorted(COLS)) else _false(env))
+        env.check(tag + "_row_count", env.true() if len(post) == len(exp) else _false(env))
+        if len(post) != len(exp) or df.shape[1] != 20:
+            return
+        for i, (a, e) in enumerate(zip(post, exp)):
+            env.check("%s_row_%d_is_expected_row_unchanged" % (tag, i), env.and_(*[env.eq(a[c], e[c]) for c in COLS if c not in payload_free]))
+            o = allorig.get(float(a["geom1"]))
+            env.check("%s_row_%d_payload_as_originally" % (tag, i), env.and_(*[env.eq(a[c], o[c]) for c in ("x", "shift_x", "geom4", "phi")]) if o is not None else _false(env))
+
+
+def _pick(env, name, k):
+    return int(_conc(env, env.choice(name, list(range(k)))))
+
+
 def jobs(tier, seed):
     j = [
         ("h_subset", {"feature": "tomo_id", "values": [2.0, 1.0]}),
@@ -302,8 +418,10 @@ def jobs(tier, seed):
         ("h_renumber_particles", {"index": "gaps"}),
         ("h_sequence", {"ops": "remove>renumber_objects"}),
         ("h_sequence", {"ops": "split>renumber_particles"}),
+        ("h_history", {"length": 3}),
     ]
     if tier == "thorough":
         j += [("h_sequence", {"ops": a + ">" + b}) for a in ("remove", "split") for b in ("renumber_objects", "renumber_particles", "subset", "drop_duplicates")]
+        j += [("h_history", {"length": 4}), ("h_history", {"length": 5, "ops": ["remove_class1", "subset_tomo2_keepindex", "drop_dup", "merge_B", "renumber_objects"]})]
         j += [("h_subset", {"feature": "object_id", "values": [1.0, 3.0, 2.0]}), ("h_remove_and_split", {"feature": "tomo_id", "index": "gaps"})]
     return j
